@@ -1,3 +1,92 @@
+(** C04 — scans are pointwise, complete, ascending and position-neutral.
+    Statements only; proofs in proofs/ScanProofs.v.
+    [at1 st tid i m]: one trace tid is loaded and stands at index i of 0..m.
+    The condition is an arbitrary evaluator behaviour satisfying the property's premise (it reads
+    the trace at the current index): it yields a value whose truth [P i] depends on the index only
+    and leaves the position alone; it may change any other state (fill caches, print).
+    PARTIAL: (1) that every condition of the trace-reading fragment meets this premise is not proved
+    in Coq; (2) the lock-step visit order with two traces is proved only as far as position
+    neutrality (T-neutral, any number of traces) — results with two traces are decided by the
+    differential check; (3) fuel: the theorems require fuel > m - i, the model's loop fuel is
+    larger than any trace the harness loads and an out-of-fuel run is reported as such, never
+    compared.  (count c) is (length (find c)) by C15 count_eq, and length is List.length by C14. *)
 From WalModel Require Import Eval.
-Theorem tmp : True. Proof. exact I. Qed.
-Print Assumptions tmp.
+From WalModel.proofs Require Import RevalProofs ScanProofs.
+Local Open Scope Z_scope.
+
+Section Single.
+  Variable ev : val -> M val.
+  Variable tid : string.
+  Variable c : val.
+  Variable P : Z -> bool.
+  Hypothesis Hc : forall st i m, at1 st tid i m ->
+    exists v st', ev c st = Ok v st' /\ at1 st' tid i m /\ truthy st' v = P i.
+
+  (** (find c): exactly the indices i..m at which c is truthy, ascending, no duplicates; index restored *)
+  Theorem find_is_filter : forall fuel st i m,
+    at1 st tid i m -> 0 <= i <= m -> (Z.to_nat (m - i) < fuel)%nat ->
+    exists st', op_find fuel ev [c] st = Ok (PL (map VInt (filter P (zrange_nat i (S (Z.to_nat (m - i))))))) st'
+                /\ at1 st' tid i m.
+  Proof. exact (find_single ev tid c P Hc). Qed.
+
+  (** (find/g c), one trace: the same positions as indices; index restored *)
+  Theorem find_g_is_filter : forall fuel st i m,
+    at1 st tid i m -> 0 <= i <= m -> (Z.to_nat (m - i) < fuel)%nat ->
+    exists st', op_find_g fuel ev [c] st = Ok (PL (map VInt (filter P (zrange_nat i (S (Z.to_nat (m - i))))))) st'
+                /\ at1 st' tid i m.
+  Proof. exact (find_g_single ev tid c P Hc). Qed.
+
+  (** (whenever c body...), one trace: refinement to the loop "for j in i..m: go to j; evaluate c;
+      if truthy evaluate the body once and remember its value", then the index is put back *)
+  Variable body : list val.
+  Hypothesis Hb : forall st i m vs st', at1 st tid i m -> eval_args ev body st = Ok vs st' -> at1 st' tid i m.
+
+  Theorem whenever_is_for_loop : forall fuel st i m,
+    at1 st tid i m -> 0 <= i <= m -> (Z.to_nat (m - i) < fuel)%nat -> body <> [] ->
+    op_whenever fuel ev (c :: body) st =
+    (r <- wh_spec ev tid c body (zrange_nat i (S (Z.to_nat (m - i)))) VNone ;; set_trace_index tid i ;;; ret r) st.
+  Proof. exact (whenever_single ev tid c P Hc body Hb). Qed.
+End Single.
+Print Assumptions find_is_filter.
+Print Assumptions find_g_is_filter.
+Print Assumptions whenever_is_for_loop.
+
+(** the reference loop, for reading *)
+Theorem wh_spec_equations : forall ev tid c body last j r,
+  wh_spec ev tid c body [] last = ret last /\
+  wh_spec ev tid c body (j :: r) last =
+    (set_trace_index tid j ;;; last' <- visit ev c body last ;; wh_spec ev tid c body r last') /\
+  visit ev c body last =
+    (v <- ev c ;; st <- get_st ;;
+     (if truthy st v then vs <- eval_args ev body ;; last_or_index_error vs else ret last)).
+Proof. intros. repeat split. Qed.
+Print Assumptions wh_spec_equations.
+
+(** non-vacuity: a condition meeting the premise, on a five-sample trace standing at index 1 *)
+Theorem find_example : exists st', op_find 10 ev_even [VNone] demo_state = Ok (PL [VInt 2; VInt 4]) st' /\ at1 st' "t" 1 4.
+Proof. exact find_demo. Qed.
+Print Assumptions find_example.
+
+(** T-neutral: with any number of traces, after whenever / find/g every trace index (and the set of
+    traces and their extent) is what it was, provided condition and body keep the set of traces *)
+Theorem whenever_restores_every_index : forall (ev : val -> M val) c body,
+  (forall st v st', ev c st = Ok v st' -> same_shape (trs st) (trs st')) ->
+  (forall st vs st', eval_args ev body st = Ok vs st' -> same_shape (trs st) (trs st')) ->
+  forall fuel st r st', cont_wf (st_cont st) ->
+  op_whenever fuel ev (c :: body) st = Ok r st' -> same_frame (trs st) (trs st').
+Proof. exact whenever_position_neutral. Qed.
+Print Assumptions whenever_restores_every_index.
+
+Theorem find_g_restores_every_index : forall (ev : val -> M val) c,
+  (forall st v st', ev c st = Ok v st' -> same_shape (trs st) (trs st')) ->
+  forall fuel st r st', cont_wf (st_cont st) ->
+  op_find_g fuel ev [c] st = Ok r st' -> same_frame (trs st) (trs st').
+Proof. exact find_g_position_neutral. Qed.
+Print Assumptions find_g_restores_every_index.
+
+Theorem same_frame_means : forall l l', same_frame l l' <->
+  (map fst l' = map fst l /\
+   forall k, option_map (fun t => (tr_tid t, tr_index t, tr_max t)) (alookup k l') =
+             option_map (fun t => (tr_tid t, tr_index t, tr_max t)) (alookup k l)).
+Proof. intros. reflexivity. Qed.
+Print Assumptions same_frame_means.
